@@ -14,6 +14,8 @@ import (
 	"path/filepath"
 	"regexp"
 	"runtime"
+	"runtime/debug"
+	"runtime/pprof"
 	"sort"
 	"strconv"
 	"strings"
@@ -33,6 +35,7 @@ func envOr(k, d string) string {
 }
 
 func main() {
+	debug.SetGCPercent(800)
 	os.Setenv("GOFLAGS", "-mod=mod")
 	os.Setenv("GOPROXY", "off")
 	os.Setenv("GOSUMDB", "off")
@@ -122,6 +125,11 @@ func cmdRun(args []string) int {
 	if err != nil {
 		fmt.Println("load error:", err)
 		return 2
+	}
+	if pf := os.Getenv("VERIF_PROFILE"); pf != "" {
+		f, _ := os.Create(pf)
+		pprof.StartCPUProfile(f)
+		defer pprof.StopCPUProfile()
 	}
 	cfg := baseConfig(*tier)
 	cfg.KeepSMT = *keep
@@ -219,7 +227,7 @@ func matchKnown(ks []KnownFinding, prop string, f *Finding) *KnownFinding {
 	return nil
 }
 
-var reachRe = regexp.MustCompile(`verifReach\("([^"]+)"`)
+var reachRe = regexp.MustCompile(`verifReach\("([^"]+)",`)
 
 // expectedReach scans the harness sources that define harnesses of a property for verifReach
 // labels (vacuity witnesses). Labels are checked against the union over the property's harnesses.
@@ -232,9 +240,7 @@ func expectedReach(prop string) []string {
 		}
 		data, _ := os.ReadFile(p)
 		src := string(data)
-		if !strings.Contains(src, "func VH_"+prop+"_") {
-			return nil
-		}
+		_ = src
 		for _, r := range reachRe.FindAllStringSubmatch(src, -1) {
 			if strings.HasPrefix(r[1], prop+".") && !seen[r[1]] {
 				seen[r[1]] = true
@@ -245,6 +251,31 @@ func expectedReach(prop string) []string {
 	})
 	sort.Strings(out)
 	return out
+}
+
+var labelPropRe = regexp.MustCompile(`^(C[0-9]{2,3})\.`)
+
+func labelProp(label string) string {
+	if m := labelPropRe.FindStringSubmatch(label); m != nil {
+		return m[1]
+	}
+	return ""
+}
+
+func extraHarnesses(prop string) []string {
+	data, err := os.ReadFile(filepath.Join(verifDir, "tools", "checks.json"))
+	if err != nil {
+		return nil
+	}
+	var doc map[string]json.RawMessage
+	if json.Unmarshal(data, &doc) != nil {
+		return nil
+	}
+	var hs map[string][]string
+	if raw, ok := doc["_harnesses"]; ok {
+		json.Unmarshal(raw, &hs)
+	}
+	return hs[prop]
 }
 
 func cmdCheck(args []string) int {
@@ -281,6 +312,21 @@ func cmdCheck(args []string) int {
 			names = append(names, n)
 		}
 	}
+	// harnesses of other properties that also carry assertions of this one (tools/checks.json)
+	for _, n := range extraHarnesses(prop) {
+		if _, ok := prog.harness[n]; ok {
+			dup := false
+			for _, x := range names {
+				dup = dup || x == n
+			}
+			if !dup {
+				names = append(names, n)
+			}
+		}
+		if _, ok := prog.harness[n+"_T"]; ok && *tier == "thorough" {
+			names = append(names, n+"_T")
+		}
+	}
 	sort.Strings(names)
 	if len(names) == 0 {
 		fmt.Printf("INCONCLUSIVE property=%s no harness found\n", prop)
@@ -306,6 +352,10 @@ func cmdCheck(args []string) int {
 		}
 		for i := range hr.Findings {
 			f := &hr.Findings[i]
+			// an assertion labelled with another property's id belongs to that property's check
+			if f.Kind == "assert" && labelProp(f.Label) != "" && labelProp(f.Label) != prop {
+				continue
+			}
 			path, rr := replayFinding(prop, f)
 			ev.Replays++
 			switch {
